@@ -7,7 +7,7 @@ ID = "C13"
 FAMILY = "message"
 RULE = ("mode 4: encode_signed then decode_signed with the same key; mode 3: a validly signed message with one "
         "mutation (each class: single-bit flip in body or tag, truncation, extension by 1..64 bytes, 32-byte block "
-        "swap, different key, several tag bytes changed so that the differences cancel under + or xor, an exact MAC over a body cut by 1..32 bytes or with a length field inflated by 1..32, none) is given to the real decode_signed and the extracted model; the oracle recomputes "
+        "swap, different key (another length, unrelated, and -- right after the implementation has signed under K1 -- K1 with one bit changed at byte 0, 7, 8, 9, the middle, the end, in both directions), several tag bytes changed so that the differences cancel under + or xor, an exact MAC over a body cut by 1..32 bytes or with a length field inflated by 1..32, none) is given to the real decode_signed and the extracted model; the oracle recomputes "
         "HMAC-SHA256 independently (python hashlib); non-trivial = buffer of at least 34 bytes; distinct = distinct "
         "(mutation class, implementation output)")
 ASSUMPTIONS = ["HMAC unforgeability is a hypothesis of c13_body_tamper, not a theorem"]
@@ -78,6 +78,20 @@ def generate(rng, tier):
             j = rng.randrange(len(wire)); w2 = list(wire); w2[j] = rng.randrange(256)
             s = w2 + G.py_hmac(key, w2); tag = "resigned"
         cases.append({"ints": [3] + G.lp(vkey) + G.lp(s), "tag": tag})
+    # related keys, used one after the other in the same process (the cases of a run go through one harness process in order):
+    # the implementation signs under K1, then is asked to verify K1's frame under K2 = K1 with one bit changed at byte 0, 7, 8,
+    # 9, the middle or the end (same length, long common prefix), then signs under K2 and verifies that under K1
+    for klen in [1, 8, 9, 16, 32, 32, 64, 65, 131]:
+        for pos in sorted({0, min(7, klen - 1), min(8, klen - 1), min(9, klen - 1), klen // 2, klen - 1}):
+            k1 = G.rbytes(rng, klen)
+            k2 = list(k1); k2[pos] ^= 1 << rng.randrange(8)
+            m = G.rand_message(rng)
+            wire = G.py_encode(m)
+            cases.append({"ints": [4] + G.lp(k1) + G.msg_ints(m), "tag": "related-key-sign"})
+            cases.append({"ints": [3] + G.lp(k2) + G.lp(wire + G.py_hmac(k1, wire)), "tag": "related-key"})
+            cases.append({"ints": [4] + G.lp(k2) + G.msg_ints(m), "tag": "related-key-sign"})
+            cases.append({"ints": [3] + G.lp(k1) + G.lp(wire + G.py_hmac(k2, wire)), "tag": "related-key"})
+            cases.append({"ints": [3] + G.lp(k1) + G.lp(wire + G.py_hmac(k1, wire)), "tag": "related-key-intact"})
     return cases
 
 
